@@ -90,6 +90,9 @@ def run_cases(chk, binp, cases, pf_ok, pf):
     seqs = []
     for i in range(min(len(docs_only), 16 if chk.tier == "quick" else 600)):
         seqs.append({"id": i, "docs": [rng.choice(docs_only) for _ in range(rng.randint(2, 4))], "cont": rng.random() < 0.5})
+    # the same loaded document validated again (fresh validators): the first validation must not change what the next one sees
+    for d in docs_only[:(40 if chk.tier == "quick" else 2000)]:
+        seqs.append({"id": len(seqs), "docs": [d], "cont": rng.random() < 0.7, "same_doc": True, "again": 3})
     reuse_calls = 0
     if seqs:
         for r in C.harness_parallel(binp, "reuse", seqs, shards=14):
@@ -104,9 +107,18 @@ def run_cases(chk, binp, cases, pf_ok, pf):
                     continue
                 if u["valid"] == f["valid"] and only_unresolved_choice(u["errors"], f["errors"]) and "unresolved-reference-choice" in chk.known:
                     continue
+                same = seqs[r["id"]].get("same_doc")
+                if same and u["valid"] == f["valid"] and X.normalise(u["errors"]) == X.normalise(f["errors"]) and \
+                        any(UNRESOLVED_RE.match(m) for m in f["errors"]) and \
+                        all(m.endswith("is not used anywhere") for m in set(X.normalise(u["warnings"])) ^ set(X.normalise(f["warnings"]))) and \
+                        "revalidation-after-unresolved-references" in chk.known:
+                    chk.known_hit.setdefault("revalidation-after-unresolved-references", "the same loaded document validated again after its references could not be resolved")
+                    continue
                 if u["valid"] != f["valid"] or X.normalise(u["errors"]) != X.normalise(f["errors"]) or X.normalise(u["warnings"]) != X.normalise(f["warnings"]):
-                    bad.append(({"docs": seqs[r["id"]]["docs"][:i + 1], "origin": "one validator, documents in a row", "cont": seqs[r["id"]]["cont"]},
-                                [{"what": "validating a document after other validations with the same validator gives another result than with a fresh validator",
+                    bad.append(({"docs": seqs[r["id"]]["docs"][:i + 1], "origin": "the same loaded document, validated again" if same else "one validator, documents in a row",
+                                 "cont": seqs[r["id"]]["cont"], "same_doc": bool(same), "again": i + 1},
+                                [{"what": ("validating the same loaded document again gives another result (validation %d)" % (i + 1)) if same else
+                                  "validating a document after other validations with the same validator gives another result than with a fresh validator",
                                   "fresh": {"valid": f["valid"], "errors": f["errors"][:8]}, "reused": {"valid": u["valid"], "errors": u["errors"][:8]}}]))
                     break
     for c, problems in bad[:3]:
